@@ -11,6 +11,7 @@ from collections import OrderedDict
 
 from .query_replay import L, NOMAX, forest_of
 
+BOOKKEEPING = re.compile(r"^_\w*NodeMixin__")      # name-mangled private attributes of the mixins
 SHARED = [1, {"k": [2.5, None, True]}]
 VPOOL = ["éü\n\t\"q\\ \x01", 3.25, [1, [2, {"z": None}]], {"k": "v", "n": [1, 2]}, True, -0.0, 1e308, "", 0,
          "\U0001F600 astral", [], {}, -17, "plain", "line\u2028sep \u2029para \u0085nel \r\n", {"nested \u2028": ["a \u0085 ", 1]}]
@@ -133,8 +134,7 @@ def project_import(root, cands):
     walk(root, 0)
     attrs = []
     for n in order:
-        attrs.append(sorted([k, token_of(v, cands)] for k, v in n.__dict__.items()
-                            if k not in ("_NodeMixin__children", "_NodeMixin__parent")))
+        attrs.append(sorted([k, token_of(v, cands)] for k, v in n.__dict__.items() if not BOOKKEEPING.match(k)))
     return {"p": parents, "attrs": attrs, "classes": sorted({type(n).__name__ for n in order})}
 
 
@@ -198,7 +198,12 @@ def perform_dict(q, par, ch, idx):
             dex = None if (o == _default_opts(o) and idx % 3 == 0) else DictExporter(dictcls=dictcls, attriter=attriter, childiter=childiter, maxlevel=ml)
             jexp = q["jd"] if dex is not None else q["jd_default"]
             text = JsonExporter(dictexporter=dex, maxlevel=jml, **kw).export(start)
-            exp_text = json.dumps(render_dict(jexp, dictcls), **kw)
+            # C11: "exactly the json.dumps serialisation of the dictionary DictExporter produces for that node and maxlevel":
+            # relative to the real exporter's dictionary (whose correctness is C10's business), under the effective maxlevel
+            eff_ml = jml if jml is not None else (ml if dex is not None else None)
+            ref = (DictExporter(dictcls=dictcls, attriter=attriter, childiter=childiter, maxlevel=eff_ml) if dex is not None
+                   else DictExporter(maxlevel=eff_ml)).export(start)
+            exp_text = json.dumps(ref, **kw)
             buf = io.StringIO()
             dex2 = None if dex is None else DictExporter(dictcls=dictcls, attriter=attriter, childiter=childiter, maxlevel=ml)
             JsonExporter(dictexporter=dex2, maxlevel=jml, **kw).write(start, buf)
@@ -465,6 +470,11 @@ def perform_graph(q, par, ch, idx):
                 ckw.update(nodenamefunc=lambda n: "id-" + n.name)
         elif kind == "unique":
             ids = first_occurrence_ids(tok, lambda i: hex(i))
+        elif variant in (2, 3):
+            # custom edge texts cannot be told apart from identifiers: use explicit identifiers here (the default
+            # identifier scheme is exercised in variants 0 and 1, where it is compared up to renaming)
+            ids = {l: l for l in par}
+            ckw.update(nodenamefunc=lambda n: lab(n))
         else:
             ids = first_occurrence_ids(tok, lambda i: "N%d" % i)
         res["n"] += 1
@@ -504,7 +514,10 @@ def perform_graph(q, par, ch, idx):
                 back = {id(o): l for l, o in twins.items()}
                 akw = dict(filter_=lambda n: back[id(n)] in fls, stop=lambda n: back[id(n)] in sts, maxlevel=ml)
                 try:
-                    advlines = list(cls(twins[q["s"]], **akw, **ckw))
+                    ackw = dict(ckw)
+                    if kind == "mermaid" and variant in (2, 3):
+                        ackw["nodenamefunc"] = lambda n: back[id(n)]
+                    advlines = list(cls(twins[q["s"]], **akw, **ackw))
                     if _canon(advlines, kind) != _canon(lines, kind):
                         res["bad"].append({"kind": kind, "prop": prop, "direct": True, "what": "export of a tree of always-equal nodes differs from the export of plain nodes",
                                            "lines": advlines[:10], "expected": lines[:10]})
@@ -572,7 +585,14 @@ def _canon(lines, kind):
         return list(lines)
     if kind == "unique":
         return [re.sub(r'"0x[0-9a-f]+"|"[^" ]+"(?= (?:->|--|\[)|;)', ren, l) for l in lines]
-    return [re.sub(r'^( *)(\w+)', lambda m: m.group(1) + ren(re.match(r'\w+', m.group(2))), l) for l in lines]
+    out = []
+    for l in lines:
+        m = re.match(r'^( *)(\w+)-->(\w+)$', l)
+        if m:       # default edge: both identifiers
+            out.append("%s%s-->%s" % (m.group(1), ren(re.match(r'\w+', m.group(2))), ren(re.match(r'\w+', m.group(3)))))
+        else:
+            out.append(re.sub(r'^( *)(\w+)', lambda m2: m2.group(1) + ren(re.match(r'\w+', m2.group(2))), l))
+    return out
 
 
 def _strip_label(lines):
